@@ -121,15 +121,26 @@ func rows(em *netrows.Emitter, kind string) (cases int) {
 			closed = true
 			mu.Unlock()
 			_ = closeErr
+			stuck := false
+			giveUp := time.After(slack) // one give-up time for all blocked calls of this configuration
 			for _, c := range blocked {
 				select {
 				case err := <-c.done:
 					if err == nil {
 						fail("success-without-message", c.name+" blocked during Close returned nil without a message", w)
 					}
-				case <-time.After(slack):
+				case <-giveUp:
 					fail("blocked-after-close", fmt.Sprintf("%s that was blocked when Close was called had not returned %v later", c.name, slack), w)
+					stuck = true
 				}
+				if stuck {
+					break
+				}
+			}
+			if stuck {
+				// the rest of this configuration would only wait on the same defect
+				peer.Close()
+				continue
 			}
 			// late calls
 			for _, serve := range []bool{false, true} {
@@ -201,9 +212,11 @@ func main() {
 	em := netrows.NewEmitter()
 	total := 0
 	for _, k := range netstacks.Kinds {
+		em.Watch(k, "the rows of this stack", 3*time.Minute)
 		n := rows(em, k)
 		total += n
 		em.Sample(map[string]any{"stack": k, "cases": n})
 	}
+	em.Watch("", "", 0)
 	em.Stats(map[string]int{"evaluations": total, "stacks": len(netstacks.Kinds)})
 }
